@@ -132,7 +132,7 @@ CHECKS = {
         "level": "exploration",
         "rule": "rapid stateful generation of request mixes (1-2 connections, subscribe/get/unsubscribe/call/auth/new/ill-formed methods, every outcome and order of the dependent access/get/call answers, events, deletes, revocations), end-of-history epilogue answering everything; oracle: reference client counts responses per id (never two, never unknown, error objects with string code/message) and at quiescence every id on an open connection has exactly one. Frames with a method but no id (or a null id) are sent for every action: nothing answers them. Non-trivial = >=2 requests for one rid overlapped, or an unsubscribe/unsubscribe event/delete hit a rid with a pending request; distinct by hash of the executed script",
         "assumptions": A_SIM,
-        "parts": [sim(450, 6000)],
+        "parts": [sim(750, 7000)],
     },
     "C08": {
         "level": "exploration",
